@@ -17,7 +17,7 @@ TEMPLATES = ["mr|cat", "cat|mr", "mr|mr", "cai|cac", "cac|cai", "numarr|cat", "c
              "datetime|cat", "cat|mr|cat", "mr|cat|mr", "cat|cai|cac", "cat|cat", "mr",
              "datetime", "numarr", "cat|cat|cat", "mrd|cat", "cat|mrd", "cat", "cat_date",
              "cat|cat_date"]
-MODES = ["cube"] * 5 + ["cubeset_tabbook", "cubeset_ca0", "cubeset_numsum"]
+MODES = ["cube"] * 5 + ["cubeset_tabbook", "cubeset_ca0", "cubeset_numsum", "cubeset_filtercols"]
 RULE = (
     "Recorded histories: a seeded random program of 40-160 steps over {construct another Cube "
     "/ CubeSet from the *same* response and transform objects, construct from JSON text or a "
@@ -44,7 +44,8 @@ REQUIRED_REACH = {
     "quick": ["history_read", "reread", "construct_shared", "envelope_equivalence",
               "class:mutated_transforms", "class:mutated_response", "class:mode=cube",
               "class:mode=cubeset_tabbook", "class:mode=cubeset_ca0",
-              "class:mode=cubeset_numsum", "class:3d", "class:means_pairwise_defined",
+              "class:mode=cubeset_numsum", "class:mode=cubeset_filtercols", "class:3d",
+              "class:means_pairwise_defined",
               "class:corpus"],
     "thorough": ["history_read", "reread", "construct_shared", "envelope_equivalence",
                  "thread_read", "class:mutated_transforms", "class:mutated_response",
@@ -171,6 +172,14 @@ def make_case(unit):
         return {"mode": mode, "template": template, "specs": [sim.spec_to_dict(spec)],
                 "transforms_list": [tr], "population": 1000, "threads": unit["threads"],
                 "hseed": "h/%s/%s" % (unit["seed"], i)}
+    if mode == "cubeset_filtercols":
+        from .. import filtercols
+
+        c = filtercols.make_case(g, "C18")
+        c.update({"mode": mode, "template": mode, "threads": unit["threads"],
+                  "transforms_list": [{} for _ in range(1 + len(c["filters"]))],
+                  "hseed": "h/%s/%s" % (unit["seed"], i)})
+        return c
     from .c06 import make_case as c06_case
     # reuse C06's multi-cube generators
     k = {"cubeset_tabbook": 6, "cubeset_ca0": 7, "cubeset_numsum": 8}[mode]
@@ -194,6 +203,16 @@ def _responses(case):
 
         d = json.loads(json.dumps(corpus.load(case["fixture"])))
         return [d.get("value", d)]  # the harness adds the envelope itself
+    if case["mode"] == "cubeset_filtercols":
+        from .. import filtercols
+
+        n = len(case["ans"])
+        wts = case.get("weights")
+        out = [filtercols._response(case["labels"], case["ans"], [True] * n, False, False,
+                                    wts)[0]]
+        out += [filtercols._response(case["labels"], case["ans"], k, True, True, wts)[0]
+                for k in case["filters"]]
+        return json.loads(json.dumps(out))
     return [json.loads(json.dumps(sim.build_response(sim.spec_from_dict(d))))
             for d in case["specs"]]
 
@@ -209,6 +228,10 @@ def _build(case, responses, trs, form="dict"):
         elif form == "envelope":
             resp = {"element": "shoji:view", "value": resp}
         return Cube(resp, transforms=trs[0], population=case["population"], mask_size=3)
+    if form == "json":
+        responses = [json.dumps(x) for x in responses]
+    elif form == "envelope":
+        responses = [{"element": "shoji:view", "value": x} for x in responses]
     return CubeSet(responses, trs, case["population"], 3)
 
 
@@ -324,8 +347,7 @@ def check_case(case):
     for step, e in enumerate(chosen):
         u = r.random()
         if u < 0.08:
-            form = r.choice(["dict", "dict", "json", "envelope"]) \
-                if case["mode"] in ("cube", "fixture") else "dict"
+            form = r.choice(["dict", "dict", "json", "envelope"])
             new_obj(form)
             history.append(["construct", form])
             res.monitors["construct_shared"] += 1
@@ -367,7 +389,7 @@ def check_case(case):
         res.classes.append("mutated_response")
         mutated = True
     # ---- JSON text / dict / envelope give the same table ------------------------------------------
-    if case["mode"] in ("cube", "fixture"):
+    if True:  # every mode: cubes and cube sets alike accept the three input forms
         sample = r.sample(sorted(set(chosen), key=repr), min(12, len(set(chosen))))
         for form in ("json", "envelope"):
             ob = _build(case, copy.deepcopy(base_resp), copy.deepcopy(base_trs), form)
